@@ -185,9 +185,28 @@ fn hostile_conn(r: &mut Rng, nonce: &mut u64, port: u16, span_ms: u64) -> ConnPl
             let fr = if r.chance(1, 2) {
                 BodyFraming::Length
             } else {
-                BodyFraming::Chunked { sizes: (0..r.range(1, 8)).map(|_| r.usize_in(1, 700)).collect(), ext: false, trailer: r.chance(1, 4) }
+                // chunk sizes up to 700, or all small (many frames each far
+                // below the limit)
+                let top = if r.chance(1, 2) { 700 } else { *r.pick(&[1usize, 16, 100, 300]) };
+                let n = if top < 700 { (n / top.max(1)).min(3_000) as u64 + 2 } else { r.range(1, 8) };
+                BodyFraming::Chunked { sizes: (0..n).map(|_| r.usize_in(1, top)).collect(), ext: false, trailer: r.chance(1, 4) }
             };
-            let req = build_request(m, t, &[hdr("host", "sim"), hdr("x-sim", &format!("{};0;0;0;0", my)), hdr("content-type", ct)], &body, &fr);
+            let req = if r.chance(1, 2) {
+                // a well-typed JSON document that is simply too large: only
+                // the size limit stands between it and the handler
+                let mut e = super::echo_gen::gen_typed(r, my, 0, 0);
+                let mut doc: serde_json::Value = serde_json::from_slice(e.body.as_deref().unwrap_or(b"{}")).unwrap_or(serde_json::Value::Null);
+                if doc.is_object() {
+                    doc["s"] = serde_json::Value::String("x".repeat(n));
+                    e.body = Some(serde_json::to_vec(&doc).unwrap());
+                    e.framing = fr.clone();
+                    e.h1_bytes()
+                } else {
+                    build_request(m, t, &[hdr("host", "sim"), hdr("x-sim", &format!("{};0;0;0;0", my)), hdr("content-type", ct)], &body, &fr)
+                }
+            } else {
+                build_request(m, t, &[hdr("host", "sim"), hdr("x-sim", &format!("{};0;0;0;0", my)), hdr("content-type", ct)], &body, &fr)
+            };
             if r.chance(1, 4) {
                 let cut = r.usize_in(1, req.len() - 1);
                 c.steps.push(Step::Send { data: Blob(req[..cut].to_vec()), completes: None });
@@ -196,7 +215,8 @@ fn hostile_conn(r: &mut Rng, nonce: &mut u64, port: u16, span_ms: u64) -> ConnPl
                 ending(r, &mut c, k);
             } else {
                 c.steps.push(Step::Send { data: Blob(req), completes: Some(0) });
-                c.reqs.push(hostile("oversize_body", false, my));
+                // an oversized request is a malformed one: 4xx or 5xx
+                c.reqs.push(hostile("oversize_body", true, my));
                 c.steps.push(Step::AwaitResponses { count: 1, max_ms: 35_000 });
                 c.steps.push(Step::Close);
             }
